@@ -189,7 +189,12 @@ func (r *sharedResource) GiveMe(target uint32) {
 	}
 
 	// determine the number of partitions needed
-	actual := math.Ceil(float64(target) / float64(r.factor))
+	// NOTE: the default factor is only applied when the resource is provisioned; GiveMe can be called before that
+	factor := r.factor
+	if factor == 0 {
+		factor = 1 // assume 1:1
+	}
+	actual := math.Ceil(float64(target) / float64(factor))
 
 	// raise event
 	r.Emit(TargetEvent, int(target), "", nil)
